@@ -309,8 +309,10 @@ def not_recognised(filepath, grouppath, label=""):
         warnings.simplefilter("ignore")
         try:
             with h5py.File(filepath, "r") as f:
-                present = grouppath in f
-                fmt = f[grouppath].attrs.get("format") if present else None
+                try:
+                    fmt = f[grouppath].attrs.get("format")
+                except KeyError:
+                    fmt = None      # missing path or dangling link: certainly not a cooler
         except Exception as e:
             return [label + "cannot inspect destination: %s" % e]
         if fmt == MAGIC:
